@@ -135,9 +135,17 @@ func (s *state) unmarshal(data []byte, fixItem fix.Item) error {
 		}
 
 		cnt := noKv.Value.Value().(int)
-		startNoTag := bytes.Index(data, append([]byte(noKv.Key), '='))
-		if startNoTag == -1 {
-			return nil
+		// The count field is located the same way scanKeyValue has just read it:
+		// at the start of the data or right after a delimiter, never inside
+		// another tag or a value.
+		noTagQuery := bytes.Join([][]byte{[]byte(noKv.Key), {'='}}, nil)
+		startNoTag := 0
+		if !bytes.HasPrefix(data, noTagQuery) {
+			startNoTag = bytes.Index(data, bytes.Join([][]byte{fix.Delimiter, noTagQuery}, nil))
+			if startNoTag == -1 {
+				return nil
+			}
+			startNoTag++
 		}
 
 		startFirstFieldTag := bytes.Index(data[startNoTag:], fix.Delimiter)
